@@ -1,4 +1,11 @@
 //! Thin wrappers over the cfg-gated `stateright::verif` module (hooks H1..H5 in DESIGN §3).
 
 /// Override of the per-block state budget of the exhaustive checkers (production value: 1500).
-pub fn set_block_limit(_b: Option<usize>) {}
+pub fn set_block_limit(b: Option<usize>) {
+    stateright::verif::set_block_limit(b)
+}
+
+/// The real fingerprint of a value (what the checkers de-duplicate on).
+pub fn fingerprint_of<T: std::hash::Hash>(v: &T) -> u64 {
+    stateright::verif::fingerprint_of(v)
+}
